@@ -1342,6 +1342,9 @@ struct ical_parser_s {
 	/* whether the stash ends where a newline was, which the bytes to
 	 * come may turn into a line fold */
 	bool eolp;
+	/* whether the line under way has turned out too long for the stash,
+	 * it's passed over as a whole then, however it arrives */
+	bool skip;
 	char stash[1024U];
 };
 
@@ -1350,6 +1353,8 @@ struct ical_parser_s {
 #if defined ECHSE_VERIF
 extern void echse_verif_line(const char *line, size_t len);
 #endif	/* ECHSE_VERIF */
+
+#define ESCCPY_NOFIT	((size_t)-1)
 
 static size_t
 esccpy(char *restrict tgt, size_t tz, const char *src, size_t sz)
@@ -1389,9 +1394,10 @@ esccpy(char *restrict tgt, size_t tz, const char *src, size_t sz)
 		}
 		/* not sure what to do with long lines */
 		if (UNLIKELY(ti >= tz)) {
-			/* ignore them, but leave TGT terminated where it was */
+			/* ignore them, but leave TGT terminated where it was
+			 * and let them know */
 			*tgt = '\0';
-			return 0U;
+			return ESCCPY_NOFIT;
 		}
 	}
 	tgt[ti] = '\0';
@@ -1691,18 +1697,24 @@ chop_more:
 	for (const char *tmp = BP, *const ep = BP + BZ;
 	     (eol = memchr(tmp, '\n', ep - tmp)) != NULL &&
 		     ++eol < ep && (*eol == ' ' || *eol == '\t'); tmp = eol);
-	if (UNLIKELY((eol == NULL || eol >= BP + BZ) &&
-		     BZ >= sizeof(p->stash) - p->six)) {
-		/* we must have stopped mid-stream at the end of the buffer
-		 * however, our stash space is too small to hold the contents
-		 * we'll just fuck off and hope nobody will notice */
-		p->six = 0U;
-	} else if (UNLIKELY(eol == NULL || eol >= BP + BZ)) {
-		/* copy what we've got to the stash for small buffers */
+	if (UNLIKELY(eol == NULL || eol >= BP + BZ)) {
+		/* we must have stopped mid-stream at the end of the buffer,
+		 * copy what we've got to the stash, what counts is what's
+		 * left of it without the folds */
 		char *restrict sp = p->stash + p->six;
 		size_t sz = sizeof(p->stash) - p->six;
 
-		p->six += esccpy(sp, sz, BP, BZ);
+		if (p->skip) {
+			/* more of a line we're passing over */
+			;
+		} else if ((sz = esccpy(sp, sz, BP, BZ)) == ESCCPY_NOFIT) {
+			/* our stash space is too small to hold the line,
+			 * pass over all of it, the rest is yet to come */
+			p->skip = true;
+			p->six = 0U;
+		} else {
+			p->six += sz;
+		}
 		/* that's the buffer gone */
 		BI = p->bsz;
 		if (eol != NULL) {
@@ -1722,12 +1734,24 @@ chop_more:
 		BI += llen;
 
 		/* copy to stash and unescape */
-		slen = esccpy(sp, slen, bp, llen);
-		/* store new stash pointer */
-		p->six += slen;
+		if (p->skip) {
+			/* the end of a line we're passing over */
+			;
+		} else if ((slen = esccpy(sp, slen, bp, llen)) == ESCCPY_NOFIT) {
+			/* too long, pass over all of it */
+			p->skip = true;
+		} else {
+			/* store new stash pointer */
+			p->six += slen;
+		}
 
 	proc:
-		if (!p->six || (res = _ical_proc(p)) == NULL) {
+		if (p->skip) {
+			/* that was that line */
+			p->skip = false;
+			p->six = 0U;
+			goto chop_more;
+		} else if (!p->six || (res = _ical_proc(p)) == NULL) {
 			/* nothing to report (yet), that goes for
 			 * empty lines as well */
 			goto chop_more;
